@@ -5,6 +5,7 @@ import (
 	"encoding/json"
 	"fmt"
 	"os"
+	"path/filepath"
 	"reflect"
 	"runtime/debug"
 	"sort"
@@ -80,6 +81,9 @@ type op struct {
 	// Via "debug-api": the operation is delivered as an HTTP request to the admin server's debug handlers
 	// (/debug/update_config, /debug/update_route; build tag mosn_debug) instead of a direct call of the manager
 	Via     string `json:"via,omitempty"`
+	// Dir: the router configuration names a router_configs directory, so the dump writes one file per virtual
+	// host (file name derived from the virtual host name) and a start-up reads the directory back
+	Dir bool `json:"dir,omitempty"`
 	Applied bool   `json:"applied"`       // the model's verdict: the operation is valid and changes/keeps state as written
 	Err      string       `json:"err,omitempty"` // what MOSN returned
 }
@@ -123,11 +127,11 @@ func applyModel(m *model, n names, o *op) effect {
 			if !ok {
 				return e // an update that cannot be compiled is rejected, the old table stays
 			}
-			cur.Vhosts, cur.Valid = cloneVhosts(o.Vhosts), true
+			cur.Vhosts, cur.Valid, cur.Dir = cloneVhosts(o.Vhosts), true, o.Dir
 			e.applied, e.updatedExisting = true, true
 			return e
 		}
-		m.routers[name] = &mRouter{Vhosts: cloneVhosts(o.Vhosts), Valid: ok}
+		m.routers[name] = &mRouter{Vhosts: cloneVhosts(o.Vhosts), Valid: ok, Dir: o.Dir}
 		e.applied = true
 	case "AddRoute":
 		cur := m.routers[n.r(o.R)]
@@ -286,6 +290,15 @@ func splitAddr(a string) (string, uint32) {
 	return a[:i], p
 }
 
+func sortedByName(vhs []mVhost) []mVhost {
+	out := append([]mVhost{}, vhs...)
+	sort.SliceStable(out, func(i, j int) bool { return out[i].Name < out[j].Name })
+	return out
+}
+
+// routerDir is the router_configs directory of a router in directory mode.
+func routerDir(name string) string { return filepath.Join(ev.RunDir(), "router_configs", name) }
+
 func applyLive(n names, o *op) error {
 	rm := router.GetRoutersMangerInstance()
 	ca := cluster.GetClusterMngAdapterInstance()
@@ -309,7 +322,11 @@ func applyLive(n names, o *op) error {
 		if o.Note == "nil-config" {
 			return rm.AddOrUpdateRouters(nil)
 		}
-		return rm.AddOrUpdateRouters(routerToV2(n.r(o.R), o.Vhosts))
+		cfg := routerToV2(n.r(o.R), o.Vhosts)
+		if o.Dir {
+			cfg.RouterConfigPath = routerDir(n.r(o.R))
+		}
+		return rm.AddOrUpdateRouters(cfg)
 	case "AddRoute":
 		r := o.Route.toV2()
 		return rm.AddRoute(n.r(o.R), o.Domain, &r)
@@ -539,6 +556,13 @@ func genOp(rt *rapid.T, m *model, n names, step int, prev *op, st *caseStats) *o
 		}
 		if o.Note != "nil-config" && rapid.IntRange(0, 3).Draw(rt, "viaDebugAPI") == 0 {
 			o.Via = "debug-api"
+		} else if o.Note != "nil-config" && rapid.IntRange(0, 2).Draw(rt, "dirMode") == 0 {
+			o.Dir = true
+			if rapid.Bool().Draw(rt, "slashNames") {
+				for i := range o.Vhosts {
+					o.Vhosts[i].Name = strings.Replace(o.Vhosts[i].Name, "_s", "/s", 1)
+				}
+			}
 		}
 	case "AddRoute", "RemoveAllRoutes":
 		o.R = pickIdx(rt, rExists, "router")
@@ -952,6 +976,14 @@ func (r *run) step(o *op, final bool) {
 		classes["via:debug-api"] = true
 		classes["via:debug-api:"+o.Kind] = true
 	}
+	if o.Dir && o.Via == "" && e.applied {
+		classes["router-dumped-in-directory-mode"] = true
+		for _, vh := range o.Vhosts {
+			if strings.Contains(vh.Name, "/") {
+				classes["router-dumped-in-directory-mode:virtual-host-name-with-slash"] = true
+			}
+		}
+	}
 	if o.Note != "" {
 		classes["invalid:"+o.Note] = true
 	}
@@ -1025,6 +1057,7 @@ func cleanup(n names) {
 	}
 	rm := router.GetRoutersMangerInstance()
 	for i := 0; i <= 3; i++ {
+		_ = os.RemoveAll(routerDir(n.r(i)))
 		if rm.GetRouterWrapperByName(n.r(i)) != nil {
 			_ = rm.AddOrUpdateRouters(routerToV2(n.r(i), []mVhost{{Name: "gone", Domains: []string{"gone.invalid"}}})) // keep what stays behind small
 		}
@@ -1099,7 +1132,13 @@ func checkRouters(m *model, n names, d *dumped, last *op, fail failFn, deep map[
 			fail("router/missing-from-dump:"+op, "router %q was added but is not in the dumped configuration", name)
 		}
 		// (a) stored and live configuration are the model's (last writer wins)
-		if got, want := vhostsString(vhostsFromV2(stored)), vhostsString(mr.Vhosts); got != want {
+		dumpedVhs, wantVhs := vhostsFromV2(stored), mr.Vhosts
+		if mr.Dir {
+			// a router_configs directory is read back in file-name order; the order of virtual hosts has no meaning
+			// (domains are unique in a table that compiles; the answers are compared below)
+			dumpedVhs, wantVhs = sortedByName(dumpedVhs), sortedByName(wantVhs)
+		}
+		if got, want := vhostsString(dumpedVhs), vhostsString(wantVhs); got != want {
 			fail("router/dumped-config-differs-from-model:"+op, "router %q dumped as\n  %s\nbut the history yields\n  %s", name, got, want)
 		}
 		liveCfg := rw.GetRoutersConfig()
